@@ -16,7 +16,9 @@ PROP = {
     'rule': 'rapid-generated histories of 1-12 operations on two sockets wrapped with the same key (key 4..300 bytes, biased to 4, 31-33, '
             '64, 119-121; payload 1..2040 bytes biased to 1, 2, 31-33, 63-65, 1200, 1500, 2039, 2040; all-zero / all-ones / random '
             'content): write through the wrapper, inject a harness-encoded packet with a chosen salt, inject junk of 1..8 bytes, inject '
-            'a 0-byte datagram, read. Non-trivial: at least one valid packet and (a payload of >= 33 bytes, so the keystream wraps, or '
+            'a 0-byte datagram, read, write while the inner socket refuses the datagram (ENOBUFS/EAGAIN bare and wrapped, temporary, '
+            'hard) once or twice; concurrent cases plan such refusals per writer (a WriteTo that reported success has exactly its own '
+            'packet on the wire, one that reported the inner error at most once, nothing else). Non-trivial: at least one valid packet and (a payload of >= 33 bytes, so the keystream wraps, or '
             'junk interleaved); every concurrent case is non-trivial. Distinct = distinct (key length, operation trace) resp. distinct '
             'concurrent configuration.',
     'assumptions': ['payload lengths are 1..2040: the wrapper\'s buffers are 2048 bytes (conn.go udpBufferSize) and the statement quantifies over 1..2040',
